@@ -20,8 +20,11 @@ def run(tier, seed):
     m0 = tq.initial()
     if tier == 'quick':
         series = tq.with_patch_options(tq.enumerate_series(2, 1, allow_after_failure=1), 1)
+        # plus every failing patch with two entries from the D<=2 space (a cleanly applied create/delete/rename/... that
+        # has to be undone because a sibling entry fails)
+        series += [s for s in tq.enumerate_series(2, 2, allow_after_failure=1) if any((not p.ok()) and len(p.fps) >= 2 for p in s)]
         cfgs = [c for c in configs(tier) if c['backup'] != 'onfail']
-        bounds = 'Q<=2 file patches, D<=1 deviation'
+        bounds = 'Q<=2 file patches, D<=1 deviation; D<=2 for failing patches with two entries'
     else:
         series = tq.with_patch_options(tq.enumerate_series(3, 1, allow_after_failure=1), 1) + tq.with_patch_options(tq.enumerate_series(2, 2, allow_after_failure=1), 2)
         cfgs = configs(tier)
